@@ -166,7 +166,9 @@ def check_C03(run):
     # 1. model-generated histories (rotations, revocations, duplicate races): discipline clauses on every AEAD/KMS/Store event
     fams = [("hist", dict(over=dict(MaxT=5 if q else 6, MaxKids=5 if q else 6, MaxRecs=1, MaxRevokes=1, EmitEvery=15 if q else 40),
                           ik=("session", "shared") if q else ("session", "shared", "none"), sk=(True,) if q else (True, False))),
-            ("race", dict(over=dict(MaxT=1, MaxKids=4, MaxRecs=1, MaxRevokes=0, EmitEvery=10 if q else 5), procs=("p1", "p2"), ik=("session",), sk=(True,)))]
+            ("race", dict(over=dict(MaxT=1, MaxKids=4, MaxRecs=1, MaxRevokes=0, EmitEvery=10 if q else 5), procs=("p1", "p2"), ik=("session",), sk=(True,))),
+            # two partitions whose ids differ by a trailing blank only: each data key under its own partition's intermediate key
+            ("two-parts", dict(over=dict(MaxT=3, MaxKids=4 if q else 5, MaxRecs=2, MaxRevokes=0, EmitEvery=15 if q else 40), parts=("a", "b"), ik=("shared", "session"), sk=(True,)))]
     for label, kw in fams:
         res, viols = family(run, label, **kw)
         report(run, viols, trace, CLAUSES["C03"])
@@ -183,7 +185,18 @@ def check_C03(run):
     viols = monitor(run, trace)
     report(run, viols, trace, CLAUSES["C03"])
     run.notes.append("parallel stress: %s" % json.dumps(sr.get("extra")))
-    return _finish(run, "families: hist, race + %d seeded long histories of %d operations over 8 partitions (AEAD key/nonce uniqueness, wrap discipline, taint search of records, metastore rows, KMS requests and debug log lines)" % (cfg["runs"], cfg["ops"]))
+    # 4. the random source delivers its bytes in small pieces: keys from the real secret factories and nonces from the real AEAD
+    from vlib import validate_traces
+    run.spec_files("RandomnessTrace.tla")
+    for chunk in ((8,) if q else (1, 5, 8, 16)):
+        rr = run.drv(["-rng", str(chunk), "-trace", trace], timeout=600, binary=run.gobin("memdrv"))
+        run.absorb(rr, count=False)
+        for x in validate_traces(run, "RandomnessTrace.tla", {}, [], trace, "rng-%d" % chunk, max_reject=4):
+            rs, e = x["reset"], x["event"]
+            run.findings.append({"kind": "C03.RandomKeysAndNonces %s impl=%s reader-chunk=%s" % (rs.get("what"), rs.get("impl"), rs.get("chunk")),
+                                 "detail": "with crypto/rand.Reader returning %s bytes per Read a generated %s is not entirely random: %s" % (rs.get("chunk") or "all", rs.get("what"), json.dumps(e)[:300]),
+                                 "case": {"rng": True, "trace": x["trace"]}})
+    return _finish(run, "families: hist, race, two-parts + %d seeded long histories of %d operations over 8 partitions (AEAD key/nonce uniqueness, wrap discipline, taint search of records, metastore rows, KMS requests and debug log lines)" % (cfg["runs"], cfg["ops"]))
 
 
 def check_C09(run):
@@ -328,6 +341,15 @@ def replay(run, finding):
     if not tr:
         print("nothing to replay")
         return 2
+    if case.get("rng"):
+        from vlib import validate_traces
+        run.spec_files("RandomnessTrace.tla")
+        p = os.path.join(run.work, "trace.ndjson")
+        chunk = (tr[0].get("chunk") or 8) if tr else 8
+        run.drv(["-rng", str(chunk), "-trace", p], timeout=600, binary=run.gobin("memdrv"))
+        rej = validate_traces(run, "RandomnessTrace.tla", {}, [], p, "replay", max_reject=1)
+        print("re-executed now: " + ("rejected by RandomnessTrace.tla at %s" % json.dumps(rej[0]["event"])[:300] if rej else "accepted"))
+        return 1 if rej else 0
     if case.get("coldrace"):
         from vlib import validate_traces
         run.spec_files("ColdRaceTrace.tla")
